@@ -907,24 +907,58 @@ func analyseParentSpans(fn *ssa.Function) (bool, string) {
 			msg = fmt.Sprintf("covers contributors [%d, len%+d) only", lo, hi)
 			return
 		}
-		// skip condition: only a map lookup keyed by the same element's ctx
+		// skip condition: only a map lookup keyed by the contributor's identity
+		// (its context, its span, or a key containing the span id).  The guards
+		// are those that decide whether the span reaches the result slice.
 		body := cl.Block()
 		hdr := ind.Phi.Block()
+		var sink ssa.Instruction = cl
+		core.EachInstr(fn, func(j ssa.Instruction) {
+			ap, ok := j.(*ssa.Call)
+			if !ok {
+				return
+			}
+			if b, ok := ap.Call.Value.(*ssa.Builtin); !ok || b.Name() != "append" || len(ap.Call.Args) < 2 {
+				return
+			}
+			if core.DerivesFrom(ap.Call.Args[1], func(v ssa.Value) bool { return v == ssa.Value(cl) }) {
+				sink = ap
+			}
+		})
 		for _, b := range fn.Blocks {
 			iff := core.IfOf(b)
 			if iff == nil || b == hdr {
 				continue
 			}
-			// branches inside the loop that can bypass the call
-			if !core.GuardedBy(iff, true, cl) && !core.GuardedBy(iff, false, cl) {
+			// branches inside the loop that can bypass the call or the append
+			if !core.GuardedBy(iff, true, sink) && !core.GuardedBy(iff, false, sink) {
 				continue
 			}
+			coarse := ""
 			okSkip := core.DerivesFrom(iff.Cond, func(v ssa.Value) bool {
 				lk, ok := v.(*ssa.Lookup)
-				return ok && isCtx(lk.Index.Type())
+				if !ok {
+					return false
+				}
+				if isCtx(lk.Index.Type()) || (core.TypePkgPath(lk.Index.Type()) == "go.opentelemetry.io/otel/trace" && core.TypeName(lk.Index.Type()) == "Span") {
+					return true
+				}
+				if core.DerivesFrom(lk.Index, func(w ssa.Value) bool {
+					c2, ok := w.(*ssa.Call)
+					return ok && c2.Call.Method != nil && c2.Call.Method.Name() == "SpanID" ||
+						ok && c2.Call.StaticCallee() != nil && c2.Call.StaticCallee().Name() == "SpanID"
+				}) {
+					return true
+				}
+				coarse = lk.Index.Type().String()
+				return false
 			})
 			if !okSkip {
-				msg = "a contributor can be skipped for a reason other than 'context already seen'"
+				if coarse != "" {
+					msg = "contributors are de-duplicated by a key of type " + coarse + " that does not identify the contributor's span (distinct spans sharing it get no link)"
+				} else {
+					msg = "a contributor can be skipped for a reason other than 'context already seen'"
+				}
 				found = false
 				return
 			}
